@@ -6,7 +6,8 @@
   `contentsCheck`, `unmapCheck` of `MRB.Vmem` mean.  The check evaluates those procedures on the regenerated
   table (`Vmem.verdict`, printed by the driver) — a `false` verdict is a model-level violation for which the
   harness (`vmemprobe`, the `vmemseam` / `vmemown` profiles) then exhibits the failing input on the real code.
-  On the pinned tree three verdicts are `false`; they are the known findings D8a–c (see DESIGN.md).
+  On the pinned tree three verdicts were `false` (findings D8a–c of DESIGN.md); D8a and D8c are repaired in /repo,
+  `mirror` is still `false` (D8b, open).
 -/
 import MRB.Vmem
 import MRB.Seq.Arith
@@ -99,11 +100,12 @@ theorem C17_unmap_both_views (calls : List MmapCall) (u : MunmapLen) (h : unmapC
 
 /-- Source conformance: the calls are placed as the page-table model assumes (first call: kernel-chosen base,
 which is what `new` returns; every later call `MAP_FIXED` at a named block), `new` refuses a length that is not
-a whole number of pages, and `HeapStorage::new` records the source length. -/
+a whole number of pages, and `HeapStorage::new` records the source length and frees the source box as
+`MaybeUninit` cells, i.e. without destroying the items that were copied into the mapping. -/
 theorem C17_source_shape :
     wellPlaced Gen.vmemMmapCalls = true ∧ Gen.vmemReturnsFirstMapping = true ∧ Gen.vmemAssertsPageMultiple = true ∧
     extent Gen.vmemMmapCalls = 2 ∧
-    Gen.vmemStorageNew = "{letr=vmem_helper::new(&value);Self{inner:r,len:value.len(),}}" := by
+    Gen.vmemStorageNew = "{letr=vmem_helper::new(&value);letlen=value.len();drop(unsafe{core::mem::transmute::<Box<[UnsafeSyncCell<T>]>,Box<[core::mem::MaybeUninit<UnsafeSyncCell<T>>]>>(value)});Self{inner:r,len,}}" := by
   refine ⟨by decide, rfl, rfl, by decide, rfl⟩
 
 /-- Non-vacuity: a design for which all decision procedures answer `true` exists (one shared object mapped twice). -/
